@@ -588,7 +588,7 @@ impl Checker<'_> {
                         self.v(
                             "C03",
                             "dependent-runnable-after-restart",
-                            format!("dep-{ds}{when}"),
+                            if when.is_empty() { format!("dep-{ds}") } else { format!("dep-unsuccessful-already-at-submit status={ds}") },
                             format!("journal prefix records {jid}@{d} as {ds} while its dependent {jid}@{tid} is still pending: a restart at this point runs the dependent"),
                             case.clone(),
                         );
